@@ -11,6 +11,9 @@
 #include <vector>
 #include <csignal>
 #include <unistd.h>
+#include <new>
+#include <sys/resource.h>
+#include <sys/wait.h>
 #include <cds/init.h>
 #include <cds/gc/hp.h>
 #include <cds/container/cuckoo_set.h>
@@ -50,10 +53,30 @@ struct hash1 { size_t operator()( long k ) const { return hfam( g_h1, k ); } };
 struct hash2 { size_t operator()( long k ) const { return hfam( g_h2, k ); } };
 
 static std::string g_current;
+// layout mode (tie between the Lean model Algo/Cuckoo and CuckooSet, tools/cuckoo_tie.py): after every operation the bucket
+// count, size() and the content of every non-empty probe set (in probe-set order) are printed as one `L…` token, the key
+// space is part of the configuration, and a case that does not finish reports the operations issued so far
+static bool g_layout = false;
+static std::string ( *g_dump_layout )( void* set ) = nullptr;
+static std::string g_ops_so_far, g_obs_so_far;
+// layout mode: a bucket table of more than g_table_limit probe sets is refused (std::bad_alloc), so that "insert() keeps doubling
+// its tables" (known finding C17-cuckoo-endless-resize) has an exact, machine-independent meaning the Lean model can share:
+// the line ends with `X table-limit` at the first operation that asks for such a table
+static size_t g_table_limit = ~size_t( 0 );
+template <typename T>
+struct limited_alloc: public std::allocator<T>
+{
+    template <typename U> struct rebind { typedef limited_alloc<U> other; };
+    limited_alloc() {}
+    template <typename U> limited_alloc( limited_alloc<U> const& ) {}
+    T * allocate( size_t n ) { if ( n > g_table_limit ) throw std::bad_alloc(); return std::allocator<T>::allocate( n ); }
+    T * allocate( size_t n, void const * ) { return allocate( n ); }
+};
 static void on_alarm( int )
 {
     // a case that does not finish is a result: report it as a hang of this configuration
-    std::printf( "%s -> X hang\n", g_current.c_str());
+    if ( g_layout ) std::printf( "%s ops%s ->%s X hang\n", g_current.c_str(), g_ops_so_far.c_str(), g_obs_so_far.c_str());
+    else std::printf( "%s -> X hang\n", g_current.c_str());
     std::fflush( stdout );
     _exit( 3 );
 }
@@ -73,15 +96,28 @@ static void run_ops( Set& s, char const* name, std::string const& cfg, int keysp
     std::string ops, obs;
     bool bad = false;
     g_current = std::string( name ) + " " + cfg + " keyspace=" + std::to_string( keyspace );
-    alarm( 10 );
+    alarm( g_layout ? 5 : 10 );
     for ( int i = 0; i < nops && !bad; ++i ) {
         long k = long( rnd() % keyspace );
         bool ins = !can_erase || rnd() % 100 < 70;
         if ( !g_explicit_ops.empty()) { ins = g_explicit_ops[i][0] == 'i'; k = std::atol( g_explicit_ops[i].c_str() + 1 ); }
-        bool r = ins ? s.insert( k ) : s.erase( k );
-        bool e = ins ? ref.insert( k ).second : ref.erase( k ) > 0;
         ops += ( ins ? " i" : " e" ) + std::to_string( k );
+        bool r;
+        if ( g_layout ) {
+            // endless doubling (known finding C17-cuckoo-endless-resize) ends at g_table_limit
+            g_ops_so_far = ops; g_obs_so_far = obs;
+            try { r = ins ? s.insert( k ) : s.erase( k ); }
+            catch ( std::bad_alloc& ) {
+                std::printf( "%s ops%s ->%s X table-limit\n", g_current.c_str(), ops.c_str(), obs.c_str());
+                std::fflush( stdout );
+                _exit( 0 );     // the set is half resized: no destructor
+            }
+        }
+        else
+            r = ins ? s.insert( k ) : s.erase( k );
+        bool e = ins ? ref.insert( k ).second : ref.erase( k ) > 0;
         obs += " " + std::to_string( int( r ));
+        if ( g_layout && g_dump_layout ) obs += " " + g_dump_layout( &s );
         if ( r != e ) { obs += " X result-differs-at-op-" + std::to_string( i ); bad = true; break; }
         for ( long q = 0; q < keyspace; ++q )
             if ( s.contains( q ) != ( ref.count( q ) > 0 )) {
@@ -93,7 +129,8 @@ static void run_ops( Set& s, char const* name, std::string const& cfg, int keysp
         if ( !bad && s.size() != ref.size()) { obs += " X size-" + std::to_string( s.size()) + "-expected-" + std::to_string( ref.size()); bad = true; }
     }
     alarm( 0 );
-    std::printf( "%s %s ops%s ->%s\n", name, cfg.c_str(), ops.c_str(), obs.c_str());
+    if ( g_layout ) std::printf( "%s ops%s ->%s\n", g_current.c_str(), ops.c_str(), obs.c_str());
+    else std::printf( "%s %s ops%s ->%s\n", name, cfg.c_str(), ops.c_str(), obs.c_str());
 }
 
 static int g_explicit_cfg[6] = { -1, 0, 0, 0, 0, 0 };     // h1 h2 init pset thr keyspace
@@ -106,6 +143,7 @@ static void cuckoo_case( char const* name )
         typedef cds::opt::hash_tuple< hash1, hash2 > hash;
         typedef ProbeSet probeset_type;
         typedef cc::cuckoo::striping<> mutex_policy;
+        typedef limited_alloc<int> allocator;
     };
     typedef cc::CuckooSet<long, traits> set_t;
     struct probe {
@@ -119,6 +157,35 @@ static void cuckoo_case( char const* name )
             return "-fullsets";
         }
     };
+    struct dumper {
+        // L<bucket count>/<size()>/<table 0>/<table 1>; a table is `-` or its non-empty probe sets `<index>:<key>,<key>…` joined by `;`
+        static std::string layout( void* v )
+        {
+            typedef typename set_t::base_class base_t;
+            set_t& cs = *static_cast<set_t*>( v );
+            base_t& s = (base_t&) cs;
+            size_t cap = s.bucket_count();
+            std::string out = "L" + std::to_string( cap ) + "/" + std::to_string( s.size());
+            for ( unsigned t = 0; t < 2; ++t ) {
+                std::string tab;
+                for ( size_t b = 0; b < cap; ++b ) {
+                    auto& bkt = s.m_BucketTable[t][b];
+                    if ( bkt.size() == 0 ) continue;
+                    if ( !tab.empty()) tab += ";";
+                    tab += std::to_string( b ) + ":";
+                    bool first = true;
+                    for ( auto it = bkt.begin(), itEnd = bkt.end(); it != itEnd; ++it ) {
+                        if ( !first ) tab += ",";
+                        first = false;
+                        tab += std::to_string( set_t::base_class::node_traits::to_value_ptr( *it )->m_val );
+                    }
+                }
+                out += "/" + ( tab.empty() ? std::string( "-" ) : tab );
+            }
+            return out;
+        }
+    };
+    g_dump_layout = &dumper::layout;
     g_classify_loss = &probe::classify;
     static int const fams[][2] = { { 2, 3 }, { 0, 5 }, { 4, 6 }, { 1, 0 }, { 2, 4 }, { 0, 0 }, { 4, 7 }, { 4, 7 } };
     int f = int( rnd() % 8 );
@@ -141,9 +208,17 @@ static void cuckoo_case( char const* name )
     else if ( g_h1 == 2 && g_h2 == 3 ) keyspace = 6 + int( rnd() % ( 3 * pset ));   // 3 x 3 grid of hash pairs: fits in 6 buckets of pset slots, but only after relocations
     if ( g_explicit_cfg[0] < 0 && g_h1 == 4 && g_h2 == 7 ) keyspace = 4 + int( rnd() % ( 3 * pset ));   // 2 x 2 grid: 4 buckets of pset slots; stay at 3/4 of what fits
     set_t s( init, pset, thr );
+    if ( g_layout && s.m_nProbesetThreshold >= s.m_nProbesetSize ) {
+        // vector<4> probe sets ignore the size argument: a threshold >= 4 breaks the constructor's precondition
+        // (m_nProbesetThreshold < m_nProbesetSize, an assert) and overruns the probe-set array: not a case of the tie
+        std::printf( "%s h=%d,%d init=%zu pset=%zu thr=%zu keyspace=%d ops -> skip threshold-not-below-probeset-size\n", name, g_h1, g_h2, init, pset, thr, keyspace );
+        g_classify_loss = nullptr; g_dump_layout = nullptr;
+        return;
+    }
     std::string cfg = "h=" + std::to_string( g_h1 ) + "," + std::to_string( g_h2 ) + " init=" + std::to_string( init ) + " pset=" + std::to_string( pset ) + " thr=" + std::to_string( thr );
     run_ops( s, name, cfg, keyspace, 40 + int( rnd() % 60 ), true );
     g_classify_loss = nullptr;
+    g_dump_layout = nullptr;
 }
 
 static void striped_case()
@@ -175,6 +250,9 @@ static void splitlist_case()
 int main( int argc, char** argv )
 {
     // `resize explicit <cuckoo_list|cuckoo_vector> <h1> <h2> <init> <pset> <thr> <keyspace> <i<k>|e<k>>...`: replay one kept case
+    // `resize layout <seed> <n> [first]` / `resize layout explicit …`: the cuckoo cases only, with the probe-set layout after every
+    // operation (see g_layout); every case runs in a child process, so that a hang or an endless resize ends that case only
+    if ( argc > 1 && std::string( argv[1] ) == "layout" ) { g_layout = true; g_table_limit = 65536; --argc; ++argv; }
     bool explicit_case = argc > 9 && std::string( argv[1] ) == "explicit";
     uint64_t seed = argc > 1 && !explicit_case ? strtoull( argv[1], nullptr, 10 ) : 1;
     size_t n = argc > 2 ? strtoull( argv[2], nullptr, 10 ) : 200;
@@ -192,7 +270,25 @@ int main( int argc, char** argv )
             else cuckoo_case< cc::cuckoo::list >( "cuckoo_list" );
             n = 0;
         }
-        for ( size_t i = first; i < n; ++i ) {
+        for ( size_t i = first; g_layout && i < n; ++i ) {
+            std::printf( "# case %zu\n", i );
+            for ( int kind = 0; kind < 2; ++kind ) {
+                std::fflush( stdout );
+                pid_t pid = fork();
+                if ( pid == 0 ) {
+                    struct rlimit rl = { size_t( 768 ) << 20, size_t( 768 ) << 20 };
+                    setrlimit( RLIMIT_AS, &rl );
+                    rng_s = (( seed * 0x2545F4914F6CDD1Dull + 13 ) ^ ( i * 0x9E3779B97F4A7C15ull )) + uint64_t( kind ) * 0x632BE59BD9B4E019ull;
+                    if ( kind == 0 ) cuckoo_case< cc::cuckoo::list >( "cuckoo_list" );
+                    else cuckoo_case< cc::cuckoo::vector<4> >( "cuckoo_vector" );
+                    std::fflush( stdout );
+                    _exit( 0 );
+                }
+                int status = 0;
+                if ( pid > 0 ) waitpid( pid, &status, 0 );
+            }
+        }
+        for ( size_t i = first; !g_layout && i < n; ++i ) {
             rng_s = ( seed * 0x2545F4914F6CDD1Dull + 13 ) ^ ( i * 0x9E3779B97F4A7C15ull );     // every case is reproducible on its own
             std::printf( "# case %zu\n", i );
             cuckoo_case< cc::cuckoo::list >( "cuckoo_list" );
